@@ -33,6 +33,10 @@ def check(ctx, report):
         reviewed = json.load(f).get('C06', {})
     speccheck.run(ctx, report, 'C06', 'tls.json', MODULES, reviewed)
     ssl2_header(ctx, report)
+    from .. import rejections
+    rejections.check(ctx, report, 'C06.R6', 'tls')
+    from .c10 import variant_order
+    variant_order(ctx, report, 'C06.R5')
     report.floor('C06.R1', 150, 'layout comparisons')
     report.floor('C06.R2', 100, 'registry members')
 
@@ -73,6 +77,22 @@ def ssl2_header(ctx, report, RULE='C06.R4'):
                 if got != want:
                     report.add(RULE, f.construct + '@header-value',
                                'a body of %d bytes is announced by the header %s, the specification says %s' % (n, got.hex(), want.hex()))
+                    break
+            # a body that does not fit the 15 bit length must be refused, not announced modulo 32768
+            from ..trace import Alt, Raise, walk
+            res = ctx.canon.layout(c, 'compose').result
+            guards = [a for a in walk(res.block) if isinstance(a, Alt) and any(isinstance(x, Raise) for x in walk(a.then))]
+            for n in (32768, 40000, 65535):
+                report.count(RULE)
+                refused = False
+                for g in guards:
+                    try:
+                        if evaluate(g.cond, leaf_for(n)):
+                            refused = True
+                    except NotEvaluable:
+                        pass
+                if not refused:
+                    report.add(RULE, f.construct + '@header-range', 'a body of %d bytes is composed with the header length %d (15 bits): it must be refused' % (n, n & 0x7fff))
                     break
         except NotEvaluable as e:
             report.add(RULE, f.construct + '@header', 'header value is not a function of the body length: %s' % e)
